@@ -14,6 +14,11 @@ import wpull.util
 _logger = logging.getLogger(__name__)
 
 
+def is_ip_literal(host):
+    '''Return whether the hostname is an IP address instead of a name.'''
+    return ':' in host or host.rsplit('.', 1)[-1].isdigit()
+
+
 def cookie_domain_ok(domain, domain_specified, host):
     '''Return whether a cookie may be exchanged with the host.
 
@@ -42,7 +47,12 @@ def cookie_domain_ok(domain, domain_specified, host):
         # domain that other hosts share.
         return domain == host
 
-    return True
+    if domain == host:
+        return True
+
+    # Domain matching of RFC 6265 Section 5.1.3: a suffix at a label
+    # boundary, and never for an IP address.
+    return host.endswith('.' + domain) and not is_ip_literal(host)
 
 
 class DeFactoCookiePolicy(DefaultCookiePolicy):
